@@ -144,6 +144,30 @@ fn rand_len(rng: &mut Rng, style: &str, fixed: usize) -> usize {
     }
 }
 
+/// Well-formed UTF-8 of exactly n bytes: characters of 1..4 bytes in random order (a byte order mark now and then in front), so
+/// that in long texts a character straddles every offset.
+fn utf8_text(rng: &mut Rng, n: usize) -> Vec<u8> {
+    let mut v: Vec<u8> = vec![];
+    if n >= 3 && rng.chance(1, 8) {
+        v.extend([0xef, 0xbb, 0xbf]);
+    }
+    while v.len() < n {
+        let room = n - v.len();
+        let c: &[u8] = match rng.below(4) {
+            0 => b"A",
+            1 => &[0xc3, 0xa4],
+            2 => &[0xe2, 0x82, 0xac],
+            _ => &[0xf0, 0x9f, 0xa6, 0x80],
+        };
+        if c.len() <= room {
+            v.extend(c);
+        } else {
+            v.push(b'z');
+        }
+    }
+    v
+}
+
 pub fn gen_payload(l: &Layout, f: &Value, rng: &mut Rng, depth: usize) -> Vec<u8> {
     let style = f["len"]["s"].as_str().unwrap();
     let fixed = f["len"]["n"].as_u64().unwrap() as usize;
@@ -230,12 +254,28 @@ pub fn gen_payload(l: &Layout, f: &Value, rng: &mut Rng, depth: usize) -> Vec<u8
         }
         "utf8" => {
             let n = rand_len(rng, style, fixed);
-            (0..n).map(|_| rng.range(32, 126) as u8).collect()
+            match rng.below(3) {
+                0 => (0..n).map(|_| rng.range(32, 126) as u8).collect(),
+                1 => utf8_text(rng, n),
+                _ => {
+                    // ... or almost: one byte of it replaced
+                    let mut v = utf8_text(rng, n);
+                    if !v.is_empty() {
+                        let k = rng.below(v.len() as u64) as usize;
+                        v[k] = rng.next() as u8;
+                    }
+                    v
+                }
+            }
         }
         _ => {
             // text, hex, raw
             let n = rand_len(rng, style, fixed);
-            let mut b: Vec<u8> = if rng.chance(1, 2) { (0..n).map(|_| rng.range(32, 126) as u8).collect() } else { rng.bytes(n) };
+            let mut b: Vec<u8> = match rng.below(3) {
+                0 => (0..n).map(|_| rng.range(32, 126) as u8).collect(),
+                1 => rng.bytes(n),
+                _ => utf8_text(rng, n),
+            };
             if let Some(last) = b.last_mut() {
                 if *last == 0 && rng.chance(3, 4) {
                     *last = 0x41;
@@ -255,7 +295,24 @@ pub fn gen_one(l: &Layout, f: &Value, rng: &mut Rng, depth: usize) -> Vec<u8> {
     if tag != 99999 {
         out.extend(tag_bytes(tag));
     }
-    let pre = len_prefix(style, pay.len(), fixed, &mut pay);
+    let mut pre = len_prefix(style, pay.len(), fixed, &mut pay);
+    // a BER length now and then in a form the library does not write: the long form for a short length, more length bytes than
+    // needed (leading zeros), and so many that the number no longer fits a machine word (it must not wrap to the small value)
+    if style == "Tlv" && rng.chance(1, 14) {
+        let n = pay.len();
+        let k = *rng.pick(&[1usize, 2, 3, 4, 8, 9, 10, 16]);
+        let mut v = vec![0x80 | k as u8];
+        let be = (n as u64).to_be_bytes();
+        for i in 0..k {
+            let from_end = k - i; // 1 = least significant byte
+            v.push(if from_end <= 8 { be[8 - from_end] } else if from_end == k { 1 } else { 0 });
+        }
+        if k < 8 && (n >> (8 * k)) != 0 {
+            // does not fit: keep the regular form
+        } else {
+            pre = v;
+        }
+    }
     out.extend(pre);
     out.extend(pay);
     out
